@@ -235,6 +235,8 @@ class Interp:
         return Ext(origin)
 
     def _force(self, v):
+        if hasattr(v, "symv") and hasattr(v, "conc"):
+            return v.get()
         if isinstance(v, Interp.LazyName):
             m = self.load_module(v.module) if v.name is None or not self._is_pkg_attr(v) else None
             if v.name is None:
